@@ -23,11 +23,15 @@ type finding struct {
 
 func lname(s string) string { return strings.ToLower(s) }
 
+// framing describes how one message is transferred on one connection (fasthttp manages these
+// fields itself per message); it is not part of the answer that the property compares.
+var framing = map[string]bool{"transfer-encoding": true, "content-length": true, "connection": true, "keep-alive": true, "date": true}
+
 func multiset(hs []drive.H, keep func(string) bool) map[string]map[string]int {
 	m := map[string]map[string]int{}
 	for _, x := range hs {
 		n := lname(x.K)
-		if keep != nil && !keep(n) {
+		if framing[n] || (keep != nil && !keep(n)) {
 			continue
 		}
 		if m[n] == nil {
@@ -208,7 +212,6 @@ func (r *run) checkOwn(rq *reqRec, ex *execRec, sigPrefix string, add func(sig, 
 	for _, x := range ex.hdr {
 		names[lname(x.K)] = true
 	}
-	keep := func(n string) bool { return names[n] }
 	ref := ex.hdr
 	if r.sc.Upstream {
 		ref = append(append([]drive.H(nil), upstreamHdr...), ex.hdr...)
@@ -216,6 +219,10 @@ func (r *run) checkOwn(rq *reqRec, ex *execRec, sigPrefix string, add func(sig, 
 			names[lname(x.K)] = true
 		}
 	}
+	if ex.cookie {
+		names["set-cookie"] = false // fiber serialised further cookies; their text is not planned
+	}
+	keep := func(n string) bool { return names[n] }
 	for _, d := range diffHeaders(multiset(ref, keep), multiset(resp.Hdr, keep)) {
 		add(sigPrefix+"|header|"+d.Class, fmt.Sprintf("%s: header %q: written %v, received %v", who, d.Name, d.Exec, d.Got))
 	}
@@ -366,8 +373,8 @@ func firstLine(s string) string {
 	return s
 }
 
-// overlap: at least two requests of one key saw a miss on the fast path (they overlap between
-// fast-path check and store) — the non-triviality rule of the design.
+// overlap: at least two requests of one key missed on the fast path and went on to Lock (they
+// overlap between fast-path check and store) — the non-triviality rule of the design.
 func (r *run) overlap() bool {
 	miss := map[string]int{}
 	for _, rq := range r.reqs {
@@ -375,10 +382,8 @@ func (r *run) overlap() bool {
 			continue
 		}
 		for _, op := range rq.Ops {
-			if op.Kind == "get" {
-				if !op.Found && !op.Err {
-					miss[rq.Key]++
-				}
+			if op.Kind == "lock" {
+				miss[rq.Key]++
 				break
 			}
 		}
